@@ -1,0 +1,47 @@
+//go:build verif
+
+package interp
+
+import "sync/atomic"
+
+// verifState holds the verification hooks of an interpreter. It only exists
+// with the verif build tag.
+type verifState struct {
+	step atomic.Pointer[func()]
+	ops  atomic.Uint64
+}
+
+// verifStep is called by the execution loop before every interpreted
+// operation, after the run-id test.
+func verifStep(interp *Interpreter) {
+	interp.verif.ops.Add(1)
+	if fn := interp.verif.step.Load(); fn != nil {
+		(*fn)()
+	}
+}
+
+// VerifSetStepHook installs fn, called before every interpreted operation of
+// this interpreter on the goroutine executing it. A nil fn removes the hook.
+func (interp *Interpreter) VerifSetStepHook(fn func()) {
+	if fn == nil {
+		interp.verif.step.Store(nil)
+		return
+	}
+	interp.verif.step.Store(&fn)
+}
+
+// VerifOps returns the number of interpreted operations executed so far.
+func (interp *Interpreter) VerifOps() uint64 { return interp.verif.ops.Load() }
+
+// VerifSetBuildContext overrides the target of build-constraint evaluation.
+func (interp *Interpreter) VerifSetBuildContext(goos, goarch string, releaseTags []string) {
+	if goos != "" {
+		interp.context.GOOS = goos
+	}
+	if goarch != "" {
+		interp.context.GOARCH = goarch
+	}
+	if releaseTags != nil {
+		interp.context.ReleaseTags = releaseTags
+	}
+}
